@@ -192,7 +192,7 @@ def run(run, pid, seed, n):
     try:
         res = lib.run_tlc("TraceWalk", "CONSTANT Dev <- NoDev\nCONSTANT Trees = {}\nCONSTANT PatternSets = {}\nCONSTANT OutKinds = {}\n"
                                        "CONSTANT OutSub = {}\nCONSTANT RecChoices = {}\nCONSTANT AutoChoices = {}\nCONSTANT SepChoices = {}\n"
-                                       "CONSTANT MaxWalkDepth = 12\nINIT TInit\nNEXT TNext\n",
+                                       "CONSTANT LinkNames = {}\nCONSTANT MaxWalkDepth = 12\nINIT TInit\nNEXT TNext\n",
                           env={"TRACE_FILE": path}, tags=("END", "REJ"), coverage=False)
     finally:
         subprocess.run(["rm", "-rf", tmp])
